@@ -36,14 +36,16 @@ fn show_box(b: &Universal2DBox) -> String {
     )
 }
 
-pub fn exec(_ctx: &mut Ctx, t: &mut Toks) -> String {
+/// `weighted`: `smetricw <method> minconf wp wv k …` — the Kalman position / velocity weights of the track options
+pub fn exec(_ctx: &mut Ctx, t: &mut Toks, weighted: bool) -> String {
     let method = match t.next() {
         "iou" => PositionalMetricType::IoU(t.f32()),
         _ => PositionalMetricType::Mahalanobis,
     };
     let minconf = t.f32();
+    let (wp, wv) = if weighted { (t.f32(), t.f32()) } else { (1.0 / 20.0, 1.0 / 160.0) };
     let k = t.usize();
-    let opts = Arc::new(SortAttributesOptions::new(None, 10, 5, SpatioTemporalConstraints::default(), 1.0 / 20.0, 1.0 / 160.0));
+    let opts = Arc::new(SortAttributesOptions::new(None, 10, 5, SpatioTemporalConstraints::default(), wp, wv));
     let mk = |id: u64| {
         TrackBuilder::new(id)
             .attributes(SortAttributes::new(opts.clone()))
